@@ -19,8 +19,18 @@ structure Basic (cfg : Cfg) (s : St) : Prop where
   tgtCap : s.tgtChan.length ≤ cfg.c
   cursor_le : s.cursor ≤ cfg.n
   emitting_eq : s.emitting = if s.prod = .inEmit then 1 else 0
-  eof_cursor : s.eof = true → s.cursor = cfg.n ∧ (s.prod = .closing ∨ s.prod = .waiting ∨ s.prod = .done)
+  eof_cursor : s.eof = true → s.cursor = cfg.n ∧
+    (s.prod = .stopping ∨ s.prod = .closing ∨ s.prod = .waiting ∨ s.prod = .done)
   srcCh : s.srcChClosed = true ↔ (s.prod = .waiting ∨ s.prod = .done)
+  pStop_iff : s.pStopped = true ↔ (s.prod = .closing ∨ s.prod = .waiting ∨ s.prod = .done)
+  pcancel_fix : s.pcancel = true → cfg.fix5 = true
+  pcancel_cons : s.pcancel = true →
+    (s.cons = .closeW ∨ s.cons = .closeP ∨ s.cons = .close1 ∨ s.cons = .close2 ∨ s.cons = .ret)
+  cons_pcancel : cfg.fix5 = true →
+    (s.cons = .closeW ∨ s.cons = .closeP ∨ s.cons = .close1 ∨ s.cons = .close2 ∨ s.cons = .ret) → s.pcancel = true
+  joined : cfg.fix5 = true → (s.cons = .closeP ∨ s.cons = .close1 ∨ s.cons = .close2 ∨ s.cons = .ret) →
+    s.pStopped = true
+  noBad : cfg.fix5 = true → s.badWindow = false ∧ s.badOverlap = false
   tgtCl : s.tgtClosed = true ↔ s.prod = .done
   done_exit : s.prod = .done → s.wExit = cfg.c
   exit_why : 0 < s.wExit → s.ctx1 = true ∨ s.srcChClosed = true
@@ -31,14 +41,14 @@ structure Basic (cfg : Cfg) (s : St) : Prop where
   drained_done : s.drained = true → s.prod = .done ∧ s.res ≠ none
 
 theorem basic_init (cfg : Cfg) : Basic cfg (init cfg) := by
-  constructor <;> simp [init, St.ctx1]
+  constructor <;> simp [init, St.ctx1, St.pctx]
 
 set_option maxHeartbeats 2000000 in
 theorem basic_step {cfg : Cfg} {s s' : St} {l : Label} (h : Basic cfg s) (hs : step cfg s l = some s') :
     Basic cfg s' := by
-  obtain ⟨h1, h2, h3, h4, h5, h6, h7, h8, h9, h10, h11, h12, h13, h14, h15⟩ := h
+  obtain ⟨h1, h2, h3, h4, h5, h6, h7, h8, h9, h10, h11, h12, h13, h14, h15, h16, h17, h18, h19, h20, h21⟩ := h
   step_cases hs <;>
-    (constructor <;> (try (simp_all [List.length_erase_of_mem, St.ctx1])) <;> (try grind [List.length_pos_of_mem]))
+    (constructor <;> (try (simp_all [List.length_erase_of_mem, St.ctx1, St.pctx])) <;> (try grind [List.length_pos_of_mem]))
 
 theorem basic {cfg : Cfg} {s : St} (hr : Reachable (sys cfg) s) : Basic cfg s :=
   invariant (sys := sys cfg) (basic_init cfg) (fun _ _ _ h hs => basic_step h hs) s hr
@@ -86,17 +96,17 @@ structure Exact (cfg : Cfg) (s : St) : Prop where
   noErrTgt : Item.err ∉ s.tgtChan
   noErrHand : s.prod ≠ .have .err
   exit_closed : 0 < s.wExit → s.srcChClosed = true ∧ s.srcChan = []
-  prod_eof : (s.prod = .closing ∨ s.prod = .waiting ∨ s.prod = .done) → s.eof = true
+  prod_eof : (s.prod = .stopping ∨ s.prod = .closing ∨ s.prod = .waiting ∨ s.prod = .done) → s.eof = true
   closing_done : s.res ≠ none → s.prod = .done ∧ s.tgtChan = [] ∧ s.res = some .ok
 
 set_option maxHeartbeats 4000000 in
 theorem exact_step {cfg : Cfg} {s s' : St} {l : Label} (hb : Basic cfg s) (h : FF s → Exact cfg s)
     (hs : step cfg s l = some s') : FF s' → Exact cfg s' := by
   intro hff
-  obtain ⟨b1, b2, b3, b4, b5, b6, b7, b8, b9, b10, b11, b12, b13, b14, b15⟩ := hb
+  obtain ⟨b1, b2, b3, b4, b5, b6, b7, b8, b9, b10, b11, b12, b13, b14, b15, b16, b17, b18, b19, b20, b21⟩ := hb
   step_cases hs <;> simp only [FF] at hff <;> (try (simp at hff; done)) <;>
     (obtain ⟨e1, e0, e2, e3, e4, e5, e6, e7, e8⟩ := h (by simpa [FF] using hff)) <;>
-    (constructor <;> (try intro i) <;> (try have hi := e1 i) <;> (try have hj := e0 i) <;> simp_all [cnt, inHand, cntItems_cons, St.ctx1] <;>
+    (constructor <;> (try intro i) <;> (try have hi := e1 i) <;> (try have hj := e0 i) <;> simp_all [cnt, inHand, cntItems_cons, St.ctx1, St.pctx] <;>
       grind [cntItems_erase, count_erase_add, Item.isVal, List.mem_of_mem_erase])
 
 
